@@ -3,6 +3,7 @@ package props
 import (
 	"bytes"
 	"context"
+	"crypto/tls"
 	"fmt"
 	"runtime"
 	"strings"
@@ -36,6 +37,10 @@ type c13Case struct {
 	// closes their connection after 3000 bytes of content. They must fail cleanly; everybody else's
 	// messages are unaffected and carry nothing of the cut ones.
 	CutEvery int `json:"cut_every,omitempty"`
+	// TLS: every goroutine calls DialAndSend on a Client with mandatory STARTTLS whose *tls.Config was
+	// supplied by the caller without a ServerName; there is no earlier, single-threaded dial, so the
+	// first dials of the Client overlap.
+	TLS bool `json:"tls,omitempty"`
 }
 
 func c13Msg(token string, refused, cut bool) *mail.Msg {
@@ -115,13 +120,22 @@ func c13Run(c c13Case) []*core.Violation {
 			srv.Auth = refsasl.Scram(acc, refsasl.ScramParams{Hash: "SHA-256", Salt: []byte("c13-salt"), Iter: 4, NonceSuffix: "c13srv"}, &refsasl.Result{})
 		}
 	}
-	cl, err := mail.NewClient(refHost, cfg.options(d)...)
+	opts := cfg.options(d)
+	if c.TLS {
+		cfg.TLS = "mandatory"
+		srv.Script.Caps = append([]string{"STARTTLS"}, srv.Script.Caps...)
+		srv.TLS = serverTLS(0)
+		opts = append(cfg.options(d), mail.WithTLSConfig(&tls.Config{InsecureSkipVerify: true, MinVersion: tls.VersionTLS12}))
+	}
+	cl, err := mail.NewClient(refHost, opts...)
 	if err != nil {
 		return []*core.Violation{core.V("HARNESS-newclient", "%v", err)}
 	}
-	if err := cl.DialWithContext(context.Background()); err != nil {
-		d.Shutdown()
-		return []*core.Violation{core.V("HARNESS-dial", "%v", err)}
+	if !c.TLS {
+		if err := cl.DialWithContext(context.Background()); err != nil {
+			d.Shutdown()
+			return []*core.Violation{core.V("HARNESS-dial", "%v", err)}
+		}
 	}
 	type sent struct {
 		token   string
@@ -152,6 +166,9 @@ func c13Run(c c13Case) []*core.Violation {
 			useDial := c.DialEvery > 0 && g%c.DialEvery == c.DialEvery-1
 			if c.CutEvery > 0 && g%c.CutEvery == 1 {
 				useDial = true // the cut happens on a connection of its own
+			}
+			if c.TLS {
+				useDial = true
 			}
 			if c.Batch || useDial {
 				var ms []*mail.Msg
@@ -251,7 +268,7 @@ func c13Run(c c13Case) []*core.Violation {
 	}
 	jit := len(c.JitterUS) > 0
 	if c.Goroutines >= 4 && jit {
-		rec.NonTrivial(core.Join(c.Goroutines, c.MsgsPer, c.DialEvery, fmt.Sprint(c.JitterUS), c.Procs, c.Batch, c.Auth, c.RefuseEvery, c.RsetDrop, c.CutEvery))
+		rec.NonTrivial(core.Join(c.Goroutines, c.MsgsPer, c.DialEvery, fmt.Sprint(c.JitterUS), c.Procs, c.Batch, c.Auth, c.RefuseEvery, c.RsetDrop, c.CutEvery, c.TLS))
 		rec.Sample(fmt.Sprintf("%d/%d", c.Goroutines/16, c.DialEvery), map[string]interface{}{"case": c, "connections": len(d.Sessions), "messages": len(all)})
 	}
 	rec.AddExtra("messages_sent", len(all))
@@ -277,6 +294,9 @@ func c13Gen(t *rapid.T) c13Case {
 	if c.Auth != "" && c.DialEvery == 0 {
 		c.DialEvery = 2 // authentication only matters for calls that dial
 	}
+	if c.RefuseEvery == 0 && c.CutEvery == 0 && rapid.IntRange(0, 5).Draw(t, "tls") == 0 {
+		c.TLS = true
+	}
 	if rapid.IntRange(0, 4).Draw(t, "nojitter") != 0 {
 		c.JitterUS = rapid.SliceOfN(rapid.SampledFrom([]int{0, 0, 10, 50, 100, 300, 1000}), 1, 7).Draw(t, "jitter")
 	}
@@ -285,7 +305,7 @@ func c13Gen(t *rapid.T) c13Case {
 
 func TestC13(t *testing.T) {
 	rec := core.Rec("C13")
-	rec.Rule = "rapid draws (goroutines 2..64, 1..4 messages per goroutine, per-call or batched Send on the shared connection, every n-th goroutine using DialAndSend on the same Client, optionally SMTP AUTH (LOGIN, CRAM-MD5 or SCRAM-SHA-256 against a verifying reference server, so that shared authenticator state shows), a per-reply latency jitter plan for the server, GOMAXPROCS in {2, 4, 16}); the binary is built with -race. One run in four mixes in messages whose recipients the server refuses (optionally with the abandoning RSET answered 421 + disconnect): the refused ones must fail cleanly, the others must be unaffected (or, after the disconnect, fail cleanly), and no call may hang. One run in five has every n-th goroutine send 64 KiB messages through DialAndSend whose connection the server closes after 3000 bytes of content: they fail cleanly and nothing of them shows up in anybody else's message. The first case of every process has all goroutines call DialAndSend at once (cold start: lazily initialised package state is first touched under contention). Every message carries a unique token in its sender, recipients, subject and body. " +
+	rec.Rule = "rapid draws (goroutines 2..64, 1..4 messages per goroutine, per-call or batched Send on the shared connection, every n-th goroutine using DialAndSend on the same Client, optionally SMTP AUTH (LOGIN, CRAM-MD5 or SCRAM-SHA-256 against a verifying reference server, so that shared authenticator state shows), a per-reply latency jitter plan for the server, GOMAXPROCS in {2, 4, 16}); the binary is built with -race. One run in four mixes in messages whose recipients the server refuses (optionally with the abandoning RSET answered 421 + disconnect): the refused ones must fail cleanly, the others must be unaffected (or, after the disconnect, fail cleanly), and no call may hang. One run in five has every n-th goroutine send 64 KiB messages through DialAndSend whose connection the server closes after 3000 bytes of content: they fail cleanly and nothing of them shows up in anybody else's message. One run in six (and the first case of every fourth process) has every goroutine call DialAndSend with mandatory STARTTLS and a caller-supplied *tls.Config without ServerName, with no earlier dial of the Client. The first case of every process has all goroutines call DialAndSend at once (cold start: lazily initialised package state is first touched under contention). Every message carries a unique token in its sender, recipients, subject and body. " +
 		"Oracle: per connection, the reference server's automaton sees no interleaved transaction (nested MAIL etc.); every committed payload carries exactly its own envelope and complete content; every token is committed exactly once; every Send returned nil and every Msg is delivered; any report of the Go race detector is a violation. " +
 		"Non-trivial: >= 4 goroutines with jitter enabled. Distinct by the drawn parameters."
 	rec.Assumptions = []string{"the harness does not own the Go scheduler: schedules are varied through GOMAXPROCS, goroutine counts and server latency only", "the race detector only sees the executions that happen"}
@@ -296,6 +316,9 @@ func TestC13(t *testing.T) {
 		cold := c13Case{Goroutines: 16, MsgsPer: 1, DialEvery: 1, Procs: 16, JitterUS: []int{0, 50}}
 		if core.Shard%2 == 1 {
 			cold = c13Case{Goroutines: 12, MsgsPer: 2, DialEvery: 2, Procs: 4, JitterUS: []int{10}}
+		}
+		if core.Shard%4 == 2 {
+			cold = c13Case{Goroutines: 16, MsgsPer: 1, DialEvery: 1, Procs: 16, TLS: true}
 		}
 		if v := p.RunOne(cold); v != nil {
 			t.Fatalf("VIOLATION-DETAIL property=C13 %s", v)
